@@ -14,6 +14,7 @@ const T_DISK: &str = "import pytest\n\n@pytest.fixture\ndef lx():\n    return 1\
 const T_BUF: &str = "import pytest\n\n\n@pytest.fixture\ndef lx():\n    return 1\n\n@pytest.fixture\ndef mx(lx):\n    return 2\n\ndef test_f(mx):\n    pass\n";
 const T_BUF2: &str = "import pytest\n\ndef test_f(fx):\n    pass\n";
 const T_BUF3: &str = "import pytest\n\n@pytest.fixture\ndef zx():\n    return 1\n";
+const T_UNDECL: &str = "import pytest\n\ndef test_f():\n    fx.go()\n    assert gx\n";
 const C_DISK: &str = "import pytest\n\n@pytest.fixture\ndef fx():\n    return 1\n\n@pytest.fixture\ndef gx(fx):\n    return 2\n";
 const C_BUF: &str = "import pytest\n\n\n@pytest.fixture\ndef fx():\n    return 1\n\n@pytest.fixture\ndef hx(fx):\n    return 3\n";
 const C_BUF2: &str = "import pytest\n\n@pytest.fixture\ndef gx():\n    return 2\n";
@@ -31,6 +32,9 @@ pub struct Case {
     /// when set: the reference state is these operations run one after the other on a fresh index
     /// (the scan finishing first, then the editor's notifications) instead of the bare single analysis
     pub reference: Option<Vec<Op>>,
+    /// further operation sequences whose end state is acceptable too (scenarios ending in didClose:
+    /// the closed buffer's content once, or the on-disk content once — never both)
+    pub also_ok: Vec<Vec<Op>>,
 }
 
 const ENTRY_STAR: &str = "from conftest import *\n";
@@ -57,12 +61,12 @@ fn phase4_cases(thorough: bool) -> Vec<Case> {
         let pre_open = vec![mark_plugin("ws/entry_plugin.py"), analyze_fresh("ws/entry_plugin.py", entry), analyze_fresh(f, C_DISK), analyze(f, C_BUF)];
         let mut r = pre_open.clone();
         r.extend([phase4(), analyze(f, C_BUF2)]);
-        v.push(Case { sc: Scenario { name: format!("{}: plugin pulls F in by {}; F open in the editor; scan's last phase ∥ didChange(buffer')", f, how), pre: pre_open.clone(), threads: vec![vec![phase4()], vec![analyze(f, C_BUF2)]] }, file: f, last: C_BUF2, next: C_BUF3, with_g: false, reference: Some(r) });
+        v.push(Case { sc: Scenario { name: format!("{}: plugin pulls F in by {}; F open in the editor; scan's last phase ∥ didChange(buffer')", f, how), pre: pre_open.clone(), threads: vec![vec![phase4()], vec![analyze(f, C_BUF2)]] }, file: f, last: C_BUF2, next: C_BUF3, with_g: false, reference: Some(r), also_ok: vec![] });
         // F not yet open: didOpen arrives during the last phase
         let pre = vec![mark_plugin("ws/entry_plugin.py"), analyze_fresh("ws/entry_plugin.py", entry), analyze_fresh(f, C_DISK)];
         let mut r = pre.clone();
         r.extend([phase4(), analyze(f, C_BUF)]);
-        v.push(Case { sc: Scenario { name: format!("{}: plugin pulls F in by {}; scan's last phase ∥ didOpen(buffer != disk)", f, how), pre, threads: vec![vec![phase4()], vec![analyze(f, C_BUF)]] }, file: f, last: C_BUF, next: C_BUF3, with_g: false, reference: Some(r) });
+        v.push(Case { sc: Scenario { name: format!("{}: plugin pulls F in by {}; scan's last phase ∥ didOpen(buffer != disk)", f, how), pre, threads: vec![vec![phase4()], vec![analyze(f, C_BUF)]] }, file: f, last: C_BUF, next: C_BUF3, with_g: false, reference: Some(r), also_ok: vec![] });
     }
     v
 }
@@ -71,28 +75,63 @@ pub fn cases(thorough: bool) -> Vec<Case> {
     let mut v = Vec::new();
     for (file, disk, buf, buf2, buf3) in [("ws/test_f.py", T_DISK, T_BUF, T_BUF2, T_BUF3), ("ws/conftest.py", C_DISK, C_BUF, C_BUF2, C_BUF3)] {
         // buffer == disk, didOpen only
-        v.push(Case { sc: Scenario { name: format!("{}: scan(disk) ∥ didOpen(buffer == disk)", file), pre: vec![], threads: vec![vec![analyze_fresh(file, disk)], vec![analyze(file, disk)]] }, file, last: disk, next: buf3, with_g: false, reference: None });
+        v.push(Case { sc: Scenario { name: format!("{}: scan(disk) ∥ didOpen(buffer == disk)", file), pre: vec![], threads: vec![vec![analyze_fresh(file, disk)], vec![analyze(file, disk)]] }, file, last: disk, next: buf3, with_g: false, reference: None, also_ok: vec![] });
         // buffer != disk, didOpen only
-        v.push(Case { sc: Scenario { name: format!("{}: scan(disk) ∥ didOpen(buffer != disk)", file), pre: vec![], threads: vec![vec![analyze_fresh(file, disk)], vec![analyze(file, buf)]] }, file, last: buf, next: buf3, with_g: false, reference: None });
+        v.push(Case { sc: Scenario { name: format!("{}: scan(disk) ∥ didOpen(buffer != disk)", file), pre: vec![], threads: vec![vec![analyze_fresh(file, disk)], vec![analyze(file, buf)]] }, file, last: buf, next: buf3, with_g: false, reference: None, also_ok: vec![] });
         // didOpen then didChange
-        v.push(Case { sc: Scenario { name: format!("{}: scan(disk) ∥ didOpen(buffer) ; didChange(buffer')", file), pre: vec![], threads: vec![vec![analyze_fresh(file, disk)], vec![analyze(file, buf), analyze(file, buf2)]] }, file, last: buf2, next: buf3, with_g: false, reference: None });
+        v.push(Case { sc: Scenario { name: format!("{}: scan(disk) ∥ didOpen(buffer) ; didChange(buffer')", file), pre: vec![], threads: vec![vec![analyze_fresh(file, disk)], vec![analyze(file, buf), analyze(file, buf2)]] }, file, last: buf2, next: buf3, with_g: false, reference: None, also_ok: vec![] });
         // the document is closed and opened again (or opened, closed, opened) while the scan worker is busy with it
-        v.push(Case { sc: Scenario { name: format!("{}: scan(disk) ∥ didClose ; didOpen(buffer != disk)", file), pre: vec![], threads: vec![vec![analyze_fresh(file, disk)], vec![crate::e1::close(file), analyze(file, buf)]] }, file, last: buf, next: buf3, with_g: false, reference: None });
+        v.push(Case { sc: Scenario { name: format!("{}: scan(disk) ∥ didClose ; didOpen(buffer != disk)", file), pre: vec![], threads: vec![vec![analyze_fresh(file, disk)], vec![crate::e1::close(file), analyze(file, buf)]] }, file, last: buf, next: buf3, with_g: false, reference: None, also_ok: vec![] });
+        // opened with an unsaved buffer and closed again while the scan is busy: afterwards the index holds
+        // the buffer's content once (the scan skipped or preceded the open document) or the disk content
+        // once (the scan came after the close) — never both
+        v.push(Case { sc: Scenario { name: format!("{}: scan(disk) ∥ didOpen(buffer != disk) ; didClose", file), pre: vec![], threads: vec![vec![analyze_fresh(file, disk)], vec![analyze(file, buf), crate::e1::close(file)]] }, file, last: buf, next: buf3, with_g: false,
+            reference: Some(vec![analyze(file, buf), crate::e1::close(file)]), also_ok: vec![vec![analyze_fresh(file, disk)]] });
         if thorough {
-            v.push(Case { sc: Scenario { name: format!("{}: scan(disk) ∥ didOpen(buffer) ; didClose ; didOpen(buffer')", file), pre: vec![], threads: vec![vec![analyze_fresh(file, disk)], vec![analyze(file, buf), crate::e1::close(file), analyze(file, buf2)]] }, file, last: buf2, next: buf3, with_g: false, reference: None });
+            v.push(Case { sc: Scenario { name: format!("{}: scan(disk) ∥ didOpen(buffer) ; didClose ; didOpen(buffer')", file), pre: vec![], threads: vec![vec![analyze_fresh(file, disk)], vec![analyze(file, buf), crate::e1::close(file), analyze(file, buf2)]] }, file, last: buf2, next: buf3, with_g: false, reference: None, also_ok: vec![] });
         }
         if thorough {
             // a second scan worker on another file G sharing names
-            v.push(Case { sc: Scenario { name: format!("{}: scan(disk) ∥ didOpen(buffer != disk) ∥ scan(G)", file), pre: vec![], threads: vec![vec![analyze_fresh(file, disk)], vec![analyze(file, buf)], vec![analyze_fresh("ws/sub/test_g.py", G_TEXT)]] }, file, last: buf, next: buf3, with_g: true, reference: None });
+            v.push(Case { sc: Scenario { name: format!("{}: scan(disk) ∥ didOpen(buffer != disk) ∥ scan(G)", file), pre: vec![], threads: vec![vec![analyze_fresh(file, disk)], vec![analyze(file, buf)], vec![analyze_fresh("ws/sub/test_g.py", G_TEXT)]] }, file, last: buf, next: buf3, with_g: true, reference: None, also_ok: vec![] });
         }
+    }
+    // a test file using a conftest fixture without declaring it is opened before / while the scan
+    // reaches that conftest.py: whatever the order, one further notification for the test file (even
+    // with unchanged text) must leave exactly the findings of a single analysis
+    {
+        let (cf, tf) = ("ws/conftest.py", "ws/test_f.py");
+        let reference = vec![analyze_fresh(cf, C_DISK), analyze(tf, T_UNDECL)];
+        v.push(Case { sc: Scenario { name: "ws/test_f.py (uses fx undeclared): scan(conftest.py) ∥ didOpen(test_f.py)".into(), pre: vec![], threads: vec![vec![analyze_fresh(cf, C_DISK)], vec![analyze(tf, T_UNDECL)]] },
+            file: tf, last: T_UNDECL, next: T_BUF2, with_g: false, reference: Some(reference), also_ok: vec![] });
     }
     v.extend(phase4_cases(thorough));
     v
 }
 
+/// index (as `snap`) plus the undeclared-fixture findings recorded for `file`: after one further
+/// notification for `file` those are part of the exact single-analysis state too
+fn snap_with_findings(db: &FixtureDatabase, file: &str) -> Vec<String> {
+    let mut v = snap(db);
+    let tag = format!("UNDECL {} ", crate::db::rel(&crate::e1::p(file), crate::ws::ROOT));
+    v.extend(crate::db::index_snapshot(db, crate::ws::ROOT, crate::db::IndexParts::ALL).into_iter().filter(|l| l.starts_with(&tag)));
+    v.sort();
+    v
+}
+
 fn reference_state(c: &Case, then: Option<&str>) -> Vec<String> {
     let Some(ops) = c.reference.clone() else {
-        return single_analysis_state(c, then.unwrap_or(c.last));
+        if let Some(t) = then {
+            let (with_g, file, text) = (c.with_g, c.file.to_string(), t.to_string());
+            return crate::seed::on_fresh_thread(move || {
+                let db = FixtureDatabase::new();
+                if with_g {
+                    db.verif_analyze_file_fresh(crate::e1::p("ws/sub/test_g.py"), G_TEXT);
+                }
+                db.analyze_file(crate::e1::p(&file), &text);
+                snap_with_findings(&db, &file)
+            });
+        }
+        return single_analysis_state(c, c.last);
     };
     let (file, then) = (c.file.to_string(), then.map(|t| t.to_string()));
     crate::seed::on_fresh_thread(move || {
@@ -102,6 +141,7 @@ fn reference_state(c: &Case, then: Option<&str>) -> Vec<String> {
         }
         if let Some(t) = &then {
             db.analyze_file(crate::e1::p(&file), t);
+            return snap_with_findings(&db, &file);
         }
         snap(&db)
     })
@@ -148,6 +188,16 @@ pub fn run(rep: &'static Report) {
         for c in &cs {
             let want = reference_state(c, None);
             let want_next = reference_state(c, Some(c.next));
+            let also: Vec<Vec<String>> = c.also_ok.iter().map(|ops| {
+                let ops = ops.clone();
+                crate::seed::on_fresh_thread(move || {
+                    let db = Arc::new(FixtureDatabase::new());
+                    for op in &ops {
+                        (op.f)(&db);
+                    }
+                    snap(&db)
+                })
+            }).collect();
             // the scan's last phase has ≈4× the scheduling points of a single analysis: one preemption less
             let bound = match (c.sc.threads.len(), thorough, c.reference.is_some()) {
                 (2, false, _) => 2,
@@ -170,9 +220,11 @@ pub fn run(rep: &'static Report) {
                 }
                 if let Some(s) = &r.snapshot {
                     if let Some(db) = &r.db {
-                        quiescent.lock().unwrap().entry(r.ordered ^ crate::db::hash_lines(s)).or_insert_with(|| db.clone());
+                        // distinct = index incl. vector order AND recorded findings (they differ with the order of the analyses)
+                        let all = crate::db::index_snapshot(db, crate::ws::ROOT, crate::db::IndexParts::ALL);
+                        quiescent.lock().unwrap().entry(r.ordered ^ crate::db::hash_lines(&all)).or_insert_with(|| db.clone());
                     }
-                    if *s != want {
+                    if *s != want && !also.contains(s) {
                         *wrong.lock().unwrap() += 1;
                         let kind = if c.file.ends_with("conftest.py") { "conftest" } else { "test file" };
                         let fp = format!("after scan ∥ edit the index is not the single analysis of the buffer ({}; buffer {} disk): {}", kind, if c.sc.name.contains("== disk") { "==" } else { "!=" }, classify(s, &want, c.file));
@@ -187,21 +239,24 @@ pub fn run(rep: &'static Report) {
             // second clause: one further change restores the exact single-analysis state, from
             // EVERY distinct quiescent state reached (including the violating ones)
             let q = quiescent.into_inner().unwrap();
-            for (_h, db) in q.iter() {
-                let (file, next) = (c.file.to_string(), c.next.to_string());
+            // the further notification carries a new text, or the same text once more
+            let want_same = reference_state(c, Some(c.last));
+            for ((_h, db), (nxt, want_next, how)) in q.iter().flat_map(|e| [(e, (c.next, &want_next, "didChange")), (e, (c.last, &want_same, "the same text sent once more"))]) {
+                let (file, next) = (c.file.to_string(), nxt.to_string());
                 let db2 = db.clone();
                 let s = crate::seed::on_fresh_thread(move || {
                     let copy = crate::db::deep_clone(&db2);
                     copy.analyze_file(crate::e1::p(&file), &next);
-                    snap(&copy)
+                    snap_with_findings(&copy, &file)
                 });
                 restored_checked += 1;
-                if s != want_next {
-                    let fp = format!("one further change does not restore the single-analysis state: {}", classify(&s, &want_next, c.file));
+                let _ = how;
+                if s != *want_next {
+                    let fp = format!("one further notification ({}) does not restore the single-analysis state: {}", how, classify(&s, want_next, c.file));
                     if !rep.count_if_seen(&fp) {
                         let extra: Vec<&String> = s.iter().filter(|l| !want_next.contains(l)).collect();
                         let missing: Vec<&String> = want_next.iter().filter(|l| !s.contains(l)).collect();
-                        rep.violation(&fp, &format!("scenario {} [{}] then didChange: extra {:?}, missing {:?}", c.sc.name, pname, extra, missing), || json!({"scenario": describe(&c.sc), "placement": pname, "then": c.next}));
+                        rep.violation(&fp, &format!("scenario {} [{}] then {}: extra {:?}, missing {:?}", c.sc.name, pname, how, extra, missing), || json!({"scenario": describe(&c.sc), "placement": pname, "then": nxt}));
                     }
                 }
             }
